@@ -3,6 +3,7 @@ C02 — universe membership is symmetric, ordered and duplicate-free after every
 
 Case: {"nv": n, "nuni": k, "ops": [[name, i, j, k], ...]} with universe ops only.
 """
+import copy
 import itertools
 
 from hypothesis import strategies as st
@@ -27,6 +28,7 @@ RULE = (
 )
 ASSUMPTIONS = [
     "removing a non-member may raise any exception type (the docs name ValueError and KeyError in different places)",
+    "a universe that was given restrictive (non-default) laws may refuse a member by raising, provided nothing changed; under default laws every add must succeed",
     "the order of BaseObject.universes is NOT checked here (the statement pins only the order of Universe.vertices); it is part of C03's observable graph",
 ]
 LEVEL_TEXT = (
@@ -115,6 +117,7 @@ def check_case(case):
                 readd = True
                 classes.add("re-add-after-remove")
         before = w.snapshot()
+        m_before = copy.deepcopy(m) if (name in ("ua", "va") and r[1] in w.restrictive) else None
         try:
             exp = m.apply(r)
         except ModelRaises:
@@ -140,6 +143,13 @@ def check_case(case):
         try:
             ret = w.execute(r)
         except Exception as e:  # noqa
+            if name in ("ua", "va") and r[1] in w.restrictive:
+                # a universe under restrictive (non-default) laws MAY refuse a member - but then nothing changed
+                require(w.snapshot() == before, "raise-changed-state", f"{where}: {e!r} was raised, yet the snapshot changed")
+                _invariant(w, where)
+                m = m_before
+                classes.add("refused-under-restrictive-laws")
+                continue
             raise Violation("call-raised", f"{where}: {e!r}")
         _invariant(w, where)
         real, expd = w.snapshot(), m.snapshot()
